@@ -6,7 +6,7 @@ CONSTANTS
   Vias = {0, 1, 2, 3, 4}
   SrcDom = {"L", "F"}
   DstDom = {"L", "F"}
-  Faults = {"none", "len", "srchost"}
+  Faults = {"none"}
   L4Dom = {"udp"}
   InSideDom = {0, 1, 2, 3, 4, 6, 999}
   EgSideDom = {0, 1, 2, 3, 4, 5, 999}
